@@ -156,10 +156,15 @@ impl fmt::Display for Display<'_> {
         let mut takes_exp = true;
         let mut n = self.spec.limit;
 
-        for d in emit(&mut rem, &den) {
-            if n == 0 {
-                break;
-            }
+        let mut digits = emit(&mut rem, &den);
+
+        // Only pull a digit if there is room to print it, otherwise the
+        // remainder no longer tells if anything was cut off.
+        while n > 0 {
+            let d = match digits.next() {
+                Some(d) => d,
+                None => break,
+            };
 
             if d.is_zero() && takes_exp {
                 exp -= 1;
@@ -196,6 +201,8 @@ impl fmt::Display for Display<'_> {
                 d.fmt(f)?;
             }
         }
+
+        drop(digits);
 
         if !rem.is_zero() && self.spec.show_continuation {
             f.write_char('…')?;
